@@ -26,5 +26,16 @@ if "<!-- BEGIN GENERATED FINDINGS -->" in s:
     s=re.sub(r"<!-- BEGIN GENERATED FINDINGS -->.*<!-- END GENERATED FINDINGS -->",lambda m:blk,s,flags=re.S)
 else:
     raise SystemExit("markers missing")
+import glob,os
+rows=["<!-- BEGIN GENERATED SEEDS -->","| seed | property | change needs | caught | by (fingerprint of the first report) |","|---|---|---|---|---|"]
+for d in sorted(glob.glob('/verif/seeded/*/meta.json')):
+    m=json.load(open(d)); name=os.path.basename(os.path.dirname(d))
+    need=" ".join((m.get('needs_to_manifest') or '').split())[:230].replace('|','/')
+    fp=(m.get('check_reports') or [{}])[0].get('fingerprint','-') if m.get('check_reports') else '-'
+    caught=m.get('detected_by_check')
+    if m.get('strengthening'): caught+=": "+" ".join(m['strengthening'].split())[:260].replace('|','/')
+    rows.append(f"| `{name}` | {m['property']} | {need} | {caught} | `{str(fp)[:110]}` |")
+rows.append("<!-- END GENERATED SEEDS -->")
+s=re.sub(r"<!-- BEGIN GENERATED SEEDS -->.*<!-- END GENERATED SEEDS -->",lambda m:"\n".join(rows),s,flags=re.S)
 open(p,'w').write(s)
 print("DESIGN.md findings tables regenerated:",len(k['fixed']),"fixed,",len(k['findings']),"recorded")
